@@ -234,6 +234,22 @@ def finding_active(entry):
     return cp.returncode == 1
 
 
+def deepen(spec):
+    """thorough tier: every string/bytes length bound `len(x) <= N` of a harness is raised to N + 1 and the
+    per-harness budget is multiplied by 5 (on top of whatever the harness module itself adds for the tier)."""
+    import re as _re
+    if spec.meta.get("no_deepen"):
+        return spec
+
+    def bump(m):
+        return "len(%s) <= %d" % (m.group(1), int(m.group(2)) + 1)
+    spec.source = _re.sub(r"len\((\w+)\) <= (\d)\b", bump, spec.source)
+    spec.timeout *= 5
+    spec.cover_timeout *= 3
+    spec.bounds = (spec.bounds + "; thorough: string/bytes length bounds + 1, budget x5").strip("; ")
+    return spec
+
+
 # ------------------------------------------------------------------ main per-property run
 
 def run_property(prop, tier, seed, only=None, verbose=True):
@@ -256,6 +272,8 @@ def run_property(prop, tier, seed, only=None, verbose=True):
     active_ids = tuple(e["id"] for e in active)
 
     specs = mod.harnesses(tier, seed, active_ids)
+    if tier == "thorough":
+        specs = [deepen(sp) for sp in specs]
     if only:
         specs = [s for s in specs if any(o in s.name for o in only)]
     names = [s.name for s in specs]
